@@ -96,6 +96,9 @@ SPECS = [
     # external journal devices (s_first = 3 at 1k blocks, 2 at 4k): journal replay checks only
     dict(name="ext4_xj1k", kb=8192, big=True, args="-t ext4 -b 1024 -I 256", extjournal=2048, tree="tiny"),
     dict(name="ext4_xj4k", kb=16384, big=True, args="-t ext4 -b 4096 -I 256", extjournal=8192, tree="tiny"),
+    # casefold feature, directories WITHOUT the casefold flag holding names that differ only in case
+    dict(name="ext4_casefold_mixed", kb=8192, args="-t ext4 -b 1024 -O casefold -J size=1", tree="tiny",
+         extras=["casecollide"], big=True),
     dict(name="ext4_4k_encodings", kb=16384, args="-t ext4 -b 4096 -O ^has_journal,stable_inodes", tree="std"),
 ]
 
@@ -134,6 +137,19 @@ def make_host_tree(spec, dirpath, seed=0):
         for i in range(700):
             os.symlink("t%d" % i, os.path.join(d, "l%04d" % i))
         os.utime(d, (trees.MTIME_BASE, trees.MTIME_BASE))
+        os.utime(dirpath, (trees.MTIME_BASE, trees.MTIME_BASE))
+    if "casecollide" in spec.get("extras", []):
+        # names that differ only in case, in small (single-block) case-SENSITIVE directories and in
+        # the root of a filesystem that has the casefold feature
+        for d, names in (("", ["INDEX", "index"]), ("proj", ["Makefile", "makefile"]),
+                         ("docs", ["README", "readme", "ReadMe", "Straße", "STRASSE", "strasse"])):
+            dd = os.path.join(dirpath, d)
+            os.makedirs(dd, exist_ok=True)
+            for k, n in enumerate(names):
+                with open(os.path.join(dd, n), "wb") as f:
+                    f.write(trees.pattern(900 + k, 100 + 37 * k))
+                os.utime(os.path.join(dd, n), (trees.MTIME_BASE, trees.MTIME_BASE))
+            os.utime(dd, (trees.MTIME_BASE, trees.MTIME_BASE))
         os.utime(dirpath, (trees.MTIME_BASE, trees.MTIME_BASE))
     if "deepfile" in spec.get("extras", []):
         # > 340 extents at 1k blocks: extent tree of depth 2 / double-indirect for block maps
